@@ -34,9 +34,11 @@ correctness of the projection / loop-filling heuristic itself (it held on all 1 
 repair was tried on, and is tested by the oracle); `XCubeMatchingDecoder` is not in the list of
 complete decoders of C05.
 
-Not proved: termination of the `while` walk of `get_matched_pairs` (it follows the PyMatching
-answer; a cycle in the answer would make it run forever — the model reports that as `XErr.hang`,
-the harness has a watchdog); that the other exceptions (`IndexError` on a syndrome of the wrong
+Not proved: termination of the `while` walk of `get_matched_pairs` — it is false in general: the
+walk follows the PyMatching answer and a cycle in the answer makes it run forever
+(`get_matched_pairs_can_hang`; observed on the implementation with zero matching weights); the
+model reports that as `XErr.hang`, exactly when the loop does not terminate
+(`get_matched_pairs_fuel_exact`); the harness has a watchdog.  That the other exceptions (`IndexError` on a syndrome of the wrong
 length, numpy shape errors when a solver answer has the wrong length) are the only ones left is
 read off the model, not stated as a theorem.
 -/
@@ -45,6 +47,7 @@ import PanqecVerif.Proofs.XCubeDecKeys
 import PanqecVerif.Proofs.XCubeDecCss
 import PanqecVerif.Proofs.XCubeDecNoKeyError
 import PanqecVerif.Proofs.XCubeDecWitness
+import PanqecVerif.Proofs.XCubeDecWalk
 import PanqecVerif.Properties.C05
 
 namespace Panqec.C05XCube
@@ -307,6 +310,17 @@ theorem xcube_repaired_on_former_witnesses :
 theorem get_matched_pairs_can_hang :
     (matchedPairs [[1, 1, 0], [0, 1, 1], [1, 0, 1]] [1, 1, 1] [1, 0, 0] : Out Unit _).val = .error .hang := by
   decide
+
+/-- **The model's `hang` is exact.**  The walk is deterministic on (stabilizer, previous qubit); on
+    a matrix with `rows` rows of `cols` columns there are at most `rows · (cols + 1)` such states,
+    so a walk that has not ended within the model's fuel `rows · (cols + 1) + 1` has repeated a
+    state: it ends within no fuel at all, i.e. the Python `while` loop does not terminate
+    (pigeonhole).  So the model reports `hang` only for inputs on which `get_matched_pairs` really
+    runs forever. -/
+theorem get_matched_pairs_fuel_exact (H : Mat) (corr : Vec)
+    (hcols : ∀ r ∈ H, r.length = (H.headD []).length) (sp : Nat) (hsp : sp < H.length)
+    (h : walk H corr (walkFuel H) sp none = none) : ∀ fuel, walk H corr fuel sp none = none :=
+  walk_fuel_exact H corr hcols sp hsp h
 
 /-- without the cycle the same call returns the matched pair -/
 example : (matchedPairs [[1, 1, 0], [0, 1, 1], [1, 0, 1]] [1, 0, 0] [1, 0, 1] : Out Unit _).val
